@@ -14,7 +14,7 @@ import lib
 
 def _model_expand(cases):
     lines = [lib.model_call("roles.expand", c["graph"], c["roles"]) for c in cases]
-    return [lib.dec(x) for x in lib.run_model(lines)]
+    return [lib.dec(x) for x in lib.run_model("roles", lines)]
 
 
 def gen_cases(chk):
